@@ -184,20 +184,10 @@ def jNode : Node → Json
 def graphH : Handler := fun j => do
   let fs ← getArr j "files"
   let es ← fs.toList.mapM enrichOf
-  let rec collect : List (Bytes × Except Err Package) → Except Err (List (Bytes × Package))
-    | [] => .ok []
-    | (k, r) :: rest =>
-      match r with
-      | .error e => .error e
-      | .ok p => match collect rest with
-        | .error e => .error e
-        | .ok l => .ok ((k, p) :: l)
-  match collect es with
-  | .error e => pure (Json.mkObj [("err", jErr e), ("stage", "enrich")])
-  | .ok arrivals =>
-    match loadGraph arrivals with
-    | .error e => pure (Json.mkObj [("err", jErr e), ("stage", "merge")])
-    | .ok ns => pure (Json.mkObj [("err", Json.null), ("nodes", Json.arr (ns.map jNode).toArray)])
+  let stage := if es.any (fun e => match e.2 with | .error _ => true | .ok _ => false) then "enrich" else "merge"
+  match loadWorkspace es with
+  | .error e => pure (Json.mkObj [("err", jErr e), ("stage", stage)])
+  | .ok ns => pure (Json.mkObj [("err", Json.null), ("nodes", Json.arr (ns.map jNode).toArray)])
 
 /-! ### lock protocol -/
 
